@@ -113,7 +113,7 @@ def _feed(res: C.Result, cases: List[Any]):
                 cl = v[5:]
                 res.failures.append(C.Failure(clause=cl.split()[0], case=jc, detail=cl,
                                               finding=C.match_finding(PROP, cl, jc, MATCHERS)))
-        if len(case["ops"]) >= 3 and tag in ("random", "seq3", "directed", "life-random", "life-directed"):
+        if len(case["ops"]) >= 3 and tag in ("random", "seq3", "directed", "directed-boundary", "life-random", "life-directed"):
             res.sample({"tag": tag, "protocol": blk[:14], "verdicts": r["props"]})
 
 
@@ -153,7 +153,9 @@ def run(res: C.Result, deep: bool):
                 "subscribed / paused, plus subscribed-to-all) x every operation (4 control methods, 3 *_all methods, "
                 "both context managers, reconnect) x every argument list of length <= 3 over {t1,t2,t3,ALL} incl. "
                 "duplicates; all sequences of <= %d operations with short argument lists; seeded random histories of "
-                "<= 30 operations over 7 types with ALL and duplicates mixed in; after every phase one probe per type "
+                "<= 30 operations over 7 types with ALL and duplicates mixed in (3 in 10 over a pool that mixes ordinary ids with "
+                "ids at the edges of the id space: 0, 1, MAX_MESSAGE_TYPES-1 / +0 / +1, 65536, ALL-1, -1, -2^31); 10 directed "
+                "histories that put every operation on each edge id; after every phase one probe per type "
                 "of the universe (incl. a never-mentioned type) is sent through the real manager; a case is "
                 "non-trivial when it has >= 2 operations.  Session life cycle (one Client object from its constructor "
                 "on, real Client.connect / disconnect / read_message / send_signal on sockets made by a socket shim): 11 "
